@@ -1,5 +1,6 @@
 import SwcVerif.Props.C10
 import SwcVerif.Proofs.Represent
+import SwcVerif.Props.C10Gen
 #print axioms C10.length_eq_sum_edges
 #print axioms C10.chainLength_eq
 #print axioms C10.length_eq_sum_branches
@@ -13,3 +14,20 @@ import SwcVerif.Proofs.Represent
 #print axioms C10.fragmentation_eq
 #print axioms C10.population_rows
 #print axioms Represent.wf_represented
+#print axioms RefineLm.branchOrder_refines
+#print axioms RefineLm.nStems_refines
+#print axioms RefineLm.getTips_refines
+#print axioms RefineLm.nTips_refines
+#print axioms RefineLm.nBifs_refines
+#print axioms RefineLm.nBranch_refines
+#print axioms RefineLm.fragmentation_refines
+#print axioms RefineLm.node_subtree_eq
+#print axioms RefineLm.terminalDegree_reduces
+#print axioms C10.generated_branch_order
+#print axioms C10.generated_branch_order_eq_model
+#print axioms C10.generated_n_stems
+#print axioms C10.generated_n_tips
+#print axioms C10.generated_n_tips_tree
+#print axioms C10.generated_n_bifs
+#print axioms C10.generated_n_branch
+#print axioms C10.generated_fragmentation
